@@ -210,6 +210,8 @@ CLAIMED = {
             'static analysis: exhaustiveness and sibling-branch agreement rules + the path-sensitive engine rules shared with C01/C02/C04/C23', ''),
 }
 
+BUILD_PHASE = {'C07', 'C08', 'C09', 'C11', 'C12', 'C13', 'C14', 'C17', 'C30'}   # claimed only in the build phase: no section 3 entry
+
 NOT_APPLICABLE = {
 }
 
@@ -230,7 +232,7 @@ def main():
                 'evidence_file': 'evidence/%s.json' % pid,
                 'replay_cmd_template': './check %s --replay {path}' % pid,
                 'engine': 'sa',
-                'level_claimed': {'category': cat, 'text': text, 'design_ref': 'DESIGN.md section 3, ' + pid},
+                'level_claimed': {'category': cat, 'text': text, 'design_ref': ('DESIGN.md section 9.3, ' if pid in BUILD_PHASE else 'DESIGN.md section 3 and 9.3, ') + pid},
                 'level_note': TRUST + (' ' + note if note else ''),
                 'technique': tech,
             })
